@@ -1,5 +1,583 @@
 package main
 
-func cmdCheck(args []string) int  { return 2 }
-func cmdRelock(args []string) int { return 2 }
-func cmdReplay(args []string) int { return 2 }
+import (
+	"encoding/json"
+	"flag"
+	"fmt"
+	"os"
+	"path/filepath"
+	"regexp"
+	"sort"
+	"strconv"
+	"strings"
+	"time"
+
+	"golang.org/x/tools/go/ssa"
+)
+
+const verifDir = "/verif"
+
+type LockEntry struct {
+	Status string `json:"status"` // discharged | undecided | finding
+	Reason string `json:"reason,omitempty"`
+	Ms     int64  `json:"ms,omitempty"`
+}
+
+type LockFile struct {
+	Note       string                           `json:"note"`
+	Properties map[string]map[string]*LockEntry `json:"properties"`
+}
+
+func lockPath() string { return filepath.Join(verifDir, "contracts", "LOCK.json") }
+
+func loadLock() *LockFile {
+	lf := &LockFile{Properties: map[string]map[string]*LockEntry{}}
+	b, err := os.ReadFile(lockPath())
+	if err == nil {
+		json.Unmarshal(b, lf)
+	}
+	if lf.Properties == nil {
+		lf.Properties = map[string]map[string]*LockEntry{}
+	}
+	return lf
+}
+
+type Finding struct {
+	Kind       string // finding | fixed
+	Property   string
+	Obligation string
+	Text       string
+}
+
+func loadFindings() []Finding {
+	var out []Finding
+	b, err := os.ReadFile(filepath.Join(verifDir, "known_findings.txt"))
+	if err != nil {
+		return nil
+	}
+	for _, l := range strings.Split(string(b), "\n") {
+		l = strings.TrimSpace(l)
+		if l == "" || strings.HasPrefix(l, "#") {
+			continue
+		}
+		var f Finding
+		switch {
+		case strings.HasPrefix(l, "finding:"):
+			f.Kind = "finding"
+			l = strings.TrimSpace(strings.TrimPrefix(l, "finding:"))
+		case strings.HasPrefix(l, "fixed:"):
+			f.Kind = "fixed"
+			l = strings.TrimSpace(strings.TrimPrefix(l, "fixed:"))
+		default:
+			continue
+		}
+		// property=Cxx obligation=<id with spaces until " :: "> :: text
+		if m := regexp.MustCompile(`^property=(C\d+)\s+obligation=(.*?)\s+::\s+(.*)$`).FindStringSubmatch(l); m != nil {
+			f.Property, f.Obligation, f.Text = m[1], m[2], m[3]
+		} else if m := regexp.MustCompile(`^property=(C\d+)\s+(.*)$`).FindStringSubmatch(l); m != nil {
+			f.Property, f.Text = m[1], m[2]
+		}
+		out = append(out, f)
+	}
+	return out
+}
+
+// propertyFunctions: which functions (and which obligations of them) belong to a property.
+type propScope struct {
+	fn       *ssa.Function
+	allSafe  bool // every SAFE obligation counts (sweep)
+	contract bool // contract clauses tagged with the property count
+}
+
+func (w *World) scopeOf(prop string) []*propScope {
+	m := map[*ssa.Function]*propScope{}
+	get := func(f *ssa.Function) *propScope {
+		if m[f] == nil {
+			m[f] = &propScope{fn: f}
+		}
+		return m[f]
+	}
+	for _, c := range w.Contracts.ByKey {
+		if c.Fn == nil || c.Trusted && len(c.Fn.Blocks) == 0 {
+			continue
+		}
+		if contains(c.Props, prop) && !c.Trusted {
+			get(c.Fn).contract = true
+		}
+	}
+	for _, sw := range w.Contracts.Sweeps {
+		if sw.Prop != prop {
+			continue
+		}
+		for _, f := range w.AllFns {
+			if !w.InModule(f) || len(f.Blocks) == 0 {
+				continue
+			}
+			switch sw.Kind {
+			case "file":
+				if strings.HasSuffix(w.FileOfFunc(f), "/"+sw.Target) && !strings.HasSuffix(w.FileOfFunc(f), "_test.go") {
+					get(f).allSafe = true
+				}
+			case "package":
+				k := FuncKey(f)
+				if strings.HasPrefix(k, sw.Pkg+".") {
+					get(f).allSafe = true
+				}
+			case "func":
+				if FuncKey(f) == sw.Target || FuncKey(f) == sw.Pkg+"."+sw.Target {
+					get(f).allSafe = true
+				}
+			}
+		}
+	}
+	var out []*propScope
+	for _, s := range m {
+		if strings.HasSuffix(w.FileOfFunc(s.fn), "_test.go") {
+			continue
+		}
+		out = append(out, s)
+	}
+	sort.Slice(out, func(i, j int) bool { return FuncKey(out[i].fn) < FuncKey(out[j].fn) })
+	return out
+}
+
+type buildResult struct {
+	obls        []*Obligation
+	outOfSubset []string
+	notes       map[string]bool
+	nFuncs      int
+	funcs       []string
+}
+
+func (w *World) buildProperty(prop string) *buildResult {
+	br := &buildResult{notes: map[string]bool{}}
+	for _, sc := range w.scopeOf(prop) {
+		v := NewFnVC(w, sc.fn)
+		if err := v.Build(); err != nil {
+			br.outOfSubset = append(br.outOfSubset, FuncKey(sc.fn)+": "+err.Error())
+			continue
+		}
+		br.nFuncs++
+		br.funcs = append(br.funcs, FuncKey(sc.fn))
+		for n := range v.notes {
+			br.notes[n] = true
+		}
+		for _, o := range v.obls {
+			isSafe := strings.HasPrefix(o.Kind, "SAFE-")
+			if isSafe {
+				if sc.allSafe {
+					br.obls = append(br.obls, o)
+				}
+				continue
+			}
+			// contract obligation: clause-level tags override function-level tags
+			if o.Clause != nil && len(o.Clause.Props) > 0 {
+				if contains(o.Clause.Props, prop) {
+					br.obls = append(br.obls, o)
+				}
+				continue
+			}
+			if sc.contract {
+				br.obls = append(br.obls, o)
+			}
+		}
+	}
+	return br
+}
+
+func discharged(o *Obligation) bool {
+	if o.Expect == "sat" {
+		return o.Status == "sat"
+	}
+	return o.Status == "unsat"
+}
+
+// ---------------- relock ----------------
+
+func cmdRelock(args []string) int {
+	fs := flag.NewFlagSet("relock", flag.ExitOnError)
+	pflag := fs.String("p", "", "property (default: all with scope)")
+	fs.Parse(args)
+	w := mustWorld()
+	lf := loadLock()
+	lf.Note = "obligations discharged on the unchanged tree within the lock budget; regenerated only by 'govc relock'"
+	props := allProps()
+	if *pflag != "" {
+		props = strings.Split(*pflag, ",")
+	}
+	findings := loadFindings()
+	for _, p := range props {
+		br := w.buildProperty(p)
+		if len(br.obls) == 0 {
+			delete(lf.Properties, p)
+			continue
+		}
+		// lock budget: 2 s on at least two back ends (1/5 of the quick timeout)
+		type res struct{ ok int }
+		SolveLock(br.obls)
+		ent := map[string]*LockEntry{}
+		nd := 0
+		for _, o := range br.obls {
+			e := &LockEntry{Ms: o.Ms}
+			if o.lockOK {
+				e.Status = "discharged"
+				nd++
+			} else {
+				e.Status = "undecided"
+				e.Reason = o.Status
+				for _, f := range findings {
+					if f.Kind == "finding" && f.Property == p && f.Obligation == o.ID {
+						e.Status = "finding"
+					}
+				}
+			}
+			ent[o.ID] = e
+		}
+		lf.Properties[p] = ent
+		fmt.Printf("%s: %d obligations, %d locked as discharged, %d functions, %d out of subset\n", p, len(br.obls), nd, br.nFuncs, len(br.outOfSubset))
+	}
+	b, _ := json.MarshalIndent(lf, "", " ")
+	os.MkdirAll(filepath.Dir(lockPath()), 0o755)
+	os.WriteFile(lockPath(), b, 0o644)
+	return 0
+}
+
+func allProps() []string {
+	var out []string
+	for i := 1; i <= 20; i++ {
+		out = append(out, fmt.Sprintf("C%02d", i))
+	}
+	return out
+}
+
+// SolveLock: an obligation is lockable when two back ends discharge it within the lock budget.
+func SolveLock(obls []*Obligation) {
+	type job struct{ o *Obligation }
+	ch := make(chan *Obligation)
+	done := make(chan bool)
+	for i := 0; i < 16; i++ {
+		go func() {
+			for o := range ch {
+				file := filepath.Join(scratchDir(), fmt.Sprintf("l%p.smt2", o))
+				os.WriteFile(file, []byte(o.Query(false)), 0o644)
+				want := "unsat"
+				if o.Expect == "sat" {
+					want = "sat"
+				}
+				ok := 0
+				var tot time.Duration
+				o.Status = "unknown"
+				for _, sp := range solvers {
+					st, _, el := runSolver(sp, file, 3*time.Second, 0)
+					tot += el
+					if st == want {
+						ok++
+						if o.Solver == "" {
+							o.Solver = sp.name
+						}
+					} else if st == "sat" || st == "unsat" {
+						o.Status = st
+					} else if o.Status == "unknown" {
+						o.Status = st
+					}
+					if ok >= 2 {
+						break
+					}
+				}
+				o.Ms = tot.Milliseconds()
+				if ok >= 2 {
+					o.lockOK = true
+					o.Status = want
+				}
+				os.Remove(file)
+			}
+			done <- true
+		}()
+	}
+	for _, o := range obls {
+		ch <- o
+	}
+	close(ch)
+	for i := 0; i < 16; i++ {
+		<-done
+	}
+}
+
+// ---------------- check ----------------
+
+type Evidence struct {
+	PropertyID  string         `json:"property_id"`
+	Tier        string         `json:"tier"`
+	Seed        int            `json:"seed"`
+	Level       string         `json:"level"`
+	Coverage    map[string]any `json:"coverage"`
+	Assumptions []string       `json:"assumptions"`
+	WallS       float64        `json:"wall_s"`
+	Violations  int            `json:"violations"`
+}
+
+var trustedBase = []string{
+	"govc itself: go/ssa -> SMT translation (/verif/govc), go/packages, go/ssa, go/types",
+	"SMT solvers z3 4.8.12, z3 5.1.0, cvc5 1.0.3",
+	"library stubs in /verif/contracts/stubs (fmt, errors, strings, sort, os, yaml.v3, participle, encoding/json)",
+	"non-module functions outside {yaml.v3, encoding/json, sort, slices, koanf, cobra, participle, reflect, text/template} do not write module-visible heap",
+	"String()/Error()/MarshalJSON methods called back from libraries do not mutate the model",
+	"C++ headers, Python/MATLAB runtime files, third-party libraries, compilers and interpreters of the target languages",
+}
+
+func cmdCheck(args []string) int {
+	fs := flag.NewFlagSet("check", flag.ExitOnError)
+	prop := fs.String("p", "", "property id")
+	tier := fs.String("tier", "", "quick | thorough")
+	fs.Parse(args)
+	if *prop == "" {
+		usage()
+	}
+	if *tier == "" {
+		*tier = os.Getenv("VERIF_TIER")
+	}
+	if *tier == "" {
+		*tier = "quick"
+	}
+	seed, _ := strconv.Atoi(os.Getenv("VERIF_SEED"))
+	t0 := time.Now()
+	w := mustWorld()
+	lf := loadLock()
+	locked := lf.Properties[*prop]
+	br := w.buildProperty(*prop)
+	findings := loadFindings()
+
+	byID := map[string]*Obligation{}
+	for _, o := range br.obls {
+		byID[o.ID] = o
+	}
+	var toSolve []*Obligation
+	var newObls []*Obligation
+	var baselineUndecided []string
+	for _, o := range br.obls {
+		e := locked[o.ID]
+		switch {
+		case e == nil:
+			newObls = append(newObls, o)
+			toSolve = append(toSolve, o)
+		case e.Status == "discharged" || e.Status == "finding":
+			toSolve = append(toSolve, o)
+		default:
+			baselineUndecided = append(baselineUndecided, o.ID)
+			if *tier == "thorough" {
+				toSolve = append(toSolve, o)
+			}
+		}
+	}
+	var missing []string
+	for id, e := range locked {
+		if byID[id] == nil && e.Status == "discharged" {
+			missing = append(missing, id)
+		}
+	}
+	sort.Strings(missing)
+	opts := solveOpts{timeout: 10 * time.Second, seed: seed, getModel: true}
+	if *tier == "thorough" {
+		opts.timeout = 60 * time.Second
+		opts.all = true
+	}
+	SolveAll(toSolve, opts, 16)
+	// second chance for locked obligations that did not come back in time (load spikes, seeds)
+	var retry []*Obligation
+	for _, o := range toSolve {
+		if e := locked[o.ID]; e != nil && e.Status == "discharged" && !discharged(o) && o.Status != "sat" && o.Status != "unsat" {
+			retry = append(retry, o)
+		}
+	}
+	if len(retry) > 0 {
+		o2 := opts
+		o2.timeout = 3 * opts.timeout
+		o2.seed = seed + 1
+		o2.all = true
+		SolveAll(retry, o2, 4)
+	}
+
+	violations := 0
+	nLocked, nDischarged := 0, 0
+	var solverMs int64
+	byBackend := map[string]int{}
+	var samples []any
+	var undecidedNew []string
+	var knownPrinted []string
+	os.MkdirAll(filepath.Join(verifDir, "replays", *prop), 0o755)
+	report := func(o *Obligation, why string) {
+		// known finding?
+		for _, f := range findings {
+			if f.Kind == "finding" && f.Property == *prop && f.Obligation == o.ID {
+				line := fmt.Sprintf("KNOWN-FINDING: property=%s %s [%s]", *prop, f.Text, o.ID)
+				fmt.Println(line)
+				knownPrinted = append(knownPrinted, line)
+				return
+			}
+		}
+		violations++
+		rp := filepath.Join(verifDir, "replays", *prop, fmt.Sprintf("v%03d.json", violations))
+		rr := tryReplay(w, o)
+		rec := map[string]any{"property": *prop, "obligation": o.ID, "kind": o.Kind, "position": o.Pos, "why": why,
+			"solver_status": o.Status, "solver": o.Solver, "solver_output": truncate(o.Model, 6000), "replay": rr}
+		b, _ := json.MarshalIndent(rec, "", " ")
+		os.WriteFile(rp, b, 0o644)
+		suffix := ""
+		if rr == nil || !rr.Reproduced {
+			suffix = " no-failing-input-found"
+		}
+		fmt.Printf("VIOLATION property=%s replay=%s obligation=%q%s\n", *prop, rp, o.ID, suffix)
+	}
+	for _, o := range toSolve {
+		solverMs += o.Ms
+		e := locked[o.ID]
+		if e != nil && e.Status == "discharged" {
+			nLocked++
+			if discharged(o) {
+				nDischarged++
+				byBackend[o.Solver]++
+				if len(samples) < 8 {
+					samples = append(samples, map[string]any{"obligation": o.ID, "at": o.Pos, "solver": o.Solver, "ms": o.Ms, "query_bytes": len(o.Query(false))})
+				}
+			} else {
+				report(o, "obligation discharged on the unchanged tree is no longer discharged")
+			}
+			continue
+		}
+		if e != nil && e.Status == "finding" {
+			if !discharged(o) {
+				report(o, "known finding")
+			}
+			continue
+		}
+		if e == nil {
+			if discharged(o) {
+				continue
+			}
+			// new obligation: violation only with a replayed counterexample
+			if o.Status == "sat" && o.Expect != "sat" {
+				if rr := tryReplay(w, o); rr != nil && rr.Reproduced {
+					report(o, "new obligation with a counterexample that replays on the real code")
+					continue
+				}
+			}
+			undecidedNew = append(undecidedNew, o.ID+" ["+o.Status+"]")
+			fmt.Printf("UNDECIDED property=%s obligation=%q status=%s\n", *prop, o.ID, o.Status)
+		}
+	}
+	for _, id := range missing {
+		fmt.Printf("MISSING property=%s obligation=%q (function or expression no longer present; not a violation)\n", *prop, id)
+	}
+	for _, u := range br.outOfSubset {
+		fmt.Printf("OUT-OF-SUBSET %s\n", u)
+	}
+	if nLocked == 0 && violations == 0 {
+		fmt.Printf("govc: property %s has no locked obligations: the check is vacuous and counts as broken\n", *prop)
+		writeEvidence(*prop, *tier, seed, nil, time.Since(t0), 1)
+		return 2
+	}
+	var notes []string
+	for n := range br.notes {
+		notes = append(notes, n)
+	}
+	sort.Strings(notes)
+	cov := map[string]any{
+		"obligations":              nLocked,
+		"discharged":               nDischarged,
+		"checker_cmd":              fmt.Sprintf("/verif/bin/govc check -p %s -tier %s", *prop, *tier),
+		"trusted_base":             trustedBase,
+		"samples":                  samples,
+		"functions_under_contract": br.funcs,
+		"functions":                br.nFuncs,
+		"by_backend":               byBackend,
+		"solver_time_s":            float64(solverMs) / 1000,
+		"baseline_undecided":       len(baselineUndecided),
+		"baseline_undecided_sample": head(baselineUndecided, 10),
+		"new_obligations":          len(newObls),
+		"new_undecided":            undecidedNew,
+		"missing_locked":           missing,
+		"out_of_subset":            br.outOfSubset,
+		"unbound_contracts":        w.Contracts.Unbound,
+		"known_findings":           knownPrinted,
+		"contract_files":           w.Contracts.Files,
+		"integers":                 "mathematical Int with machine ranges assumed on inputs/loads; conversions wrap; overflow of + - * is not checked",
+	}
+	ev := &Evidence{PropertyID: *prop, Tier: *tier, Seed: seed, Level: "proof", Coverage: cov, Assumptions: append(notes, propertyAssumptions(*prop)...),
+		WallS: time.Since(t0).Seconds(), Violations: violations}
+	b, _ := json.MarshalIndent(ev, "", " ")
+	os.MkdirAll(filepath.Join(verifDir, "evidence"), 0o755)
+	os.WriteFile(filepath.Join(verifDir, "evidence", *prop+".json"), b, 0o644)
+	fmt.Printf("govc: %s %s: %d/%d locked obligations discharged, %d baseline-undecided (not claimed), %d new, %d functions, %.1fs\n",
+		*prop, *tier, nDischarged, nLocked, len(baselineUndecided), len(newObls), br.nFuncs, time.Since(t0).Seconds())
+	if violations > 0 {
+		return 1
+	}
+	return 0
+}
+
+func writeEvidence(prop, tier string, seed int, cov map[string]any, d time.Duration, viol int) {
+	if cov == nil {
+		cov = map[string]any{"obligations": 0, "discharged": 0, "checker_cmd": "govc check", "trusted_base": trustedBase}
+	}
+	ev := &Evidence{PropertyID: prop, Tier: tier, Seed: seed, Level: "proof", Coverage: cov, WallS: d.Seconds(), Violations: viol}
+	b, _ := json.MarshalIndent(ev, "", " ")
+	os.MkdirAll(filepath.Join(verifDir, "evidence"), 0o755)
+	os.WriteFile(filepath.Join(verifDir, "evidence", prop+".json"), b, 0o644)
+}
+
+func head(xs []string, n int) []string {
+	if len(xs) > n {
+		return xs[:n]
+	}
+	return xs
+}
+
+func truncate(s string, n int) string {
+	if len(s) > n {
+		return s[:n] + "…"
+	}
+	return s
+}
+
+func propertyAssumptions(p string) []string {
+	b, err := os.ReadFile(filepath.Join(verifDir, "contracts", "assumptions.json"))
+	if err != nil {
+		return nil
+	}
+	m := map[string][]string{}
+	json.Unmarshal(b, &m)
+	return append(m["all"], m[p]...)
+}
+
+type ReplayResult struct {
+	Reproduced bool   `json:"reproduced"`
+	Detail     string `json:"detail"`
+	PackageDir string `json:"package_dir,omitempty"`
+	TestSource string `json:"test_source,omitempty"`
+	Output     string `json:"output,omitempty"`
+}
+
+func cmdReplay(args []string) int {
+	if len(args) < 1 {
+		usage()
+	}
+	b, err := os.ReadFile(args[0])
+	if err != nil {
+		fmt.Println(err)
+		return 2
+	}
+	var rec map[string]any
+	json.Unmarshal(b, &rec)
+	rr, _ := rec["replay"].(map[string]any)
+	if rr == nil || rr["test_source"] == nil {
+		fmt.Printf("replay file names obligation %v; no executable input was found by the solver\n", rec["obligation"])
+		fmt.Println(rec["solver_output"])
+		return 1
+	}
+	out, failed := runOverlayTest(rr["package_dir"].(string), rr["test_source"].(string))
+	fmt.Println(out)
+	if failed {
+		return 1
+	}
+	return 0
+}
